@@ -85,6 +85,18 @@ def c11_markvars(R):
             else:
                 ok = direct or via is not None
                 why = "the mark is under the coverage test"
+            # ... and every cached model can be asked for e's value (a lookup skips a model under which e divides by zero)
+            evaluable = any(pol and re.fullmatch(rf"self\._models_evaluate\({re.escape(e)}\)", re.sub(r"\s+", " ", ast.unparse(t))) for t, pol in facts)
+            R.check(
+                evaluable,
+                m,
+                st,
+                f"{name}: mark only where every cached model evaluates the expression",
+                f"ModelCacheMixin.{name} marks `{e}` exhausted without checking that the cached models can all be asked for its value: "
+                f"a lookup skips a model under which the expression divides by zero, so after add(x == 3); eval(5 // (x - 3), 2) "
+                f"== (255,) the second call answered () and max() raised UnsatError",
+                construct=f"{name}: exhausted mark for {e} without an evaluability test",
+            )
             R.check(
                 ok,
                 m,
